@@ -1345,6 +1345,26 @@ cdef class ParticleArray:
 
         """
         cdef BaseArray src_array, dst_array
+        cdef long n_dst = self.get_number_of_particles()
+        cdef long n_src = source.get_number_of_particles()
+
+        # Resolve the default indices here, in units of particles: the
+        # carrays would derive them from the number of *elements*, which
+        # overruns properties having a stride.
+        if end_index < 0:
+            if start_index < 0:
+                if n_src != n_dst:
+                    raise ValueError('Source length should be same as '
+                                     'dest length')
+                start_index = 0
+            elif start_index > n_dst - 1:
+                raise ValueError('start_index beyond array length')
+            elif n_dst - start_index > n_src:
+                raise ValueError('Not enough values in source')
+            end_index = n_dst
+        if start_index == end_index:
+            return
+
         for prop_name in source.properties:
             if prop_name in self.properties:
                 src_array = source.get_carray(prop_name)
